@@ -413,6 +413,8 @@ _CORPUS = [
     ("git", [["put", "b", 1], ["add", "b"], ["osrm", "b"], ["osmkdir", "b"], ["commit"], ["reopen"]]),                        # C09-git-commit-dirified
     ("git", [["put", "a", 2], ["add", "a"], ["commit"], ["put", "d", 2], ["add", "d"], ["put", "a", 0], ["revert"]]),          # C09-git-revert-rename-detect
     ("git", [["mkdir", "a"], ["mkdir", "a/b"], ["ren", "a", "a/b/c"]]),                                                     # C09-git-oserror
+    ("git", [["put", "a", 1], ["add", "a"], ["commit"], ["put", "b", 1], ["add", "b"], ["put", "a", 2], ["commit"], ["reopen"]]),  # C09-git-commit-copy
+    ("bzr", [["mkdir", "d"], ["put", "d/f", 3], ["add", "d/f"], ["commit"], ["rmf", "d"], ["ren", "d/f", "c"]]),             # C09-bzr-rename-removed-inconsistent
 ]
 
 
@@ -436,6 +438,14 @@ def _structured():
         mids.append([["rmk", x]])
         mids.append([["rmf", x]])
         mids.append([["osrm", x], ["add", x]])
+        # "already moved behind the tree's back": the source is gone from disk, the target exists unversioned
+        mk = (lambda q: ["osmkdir", q]) if x in ("a", "a/b", "d") else (lambda q: ["put", q, 1])
+        base = x.rsplit("/", 1)[-1]
+        mids.append([["osrm", x], mk("c"), ["ren", x, "c"]])
+        for dd in ("", "d"):
+            tgt = (dd + "/" if dd else "") + base
+            if tgt != x and not (dd + "/").startswith(x + "/"):
+                mids.append([["osrm", x], mk(tgt), ["mv", x, dd]])
     return mids
 
 
@@ -508,7 +518,9 @@ def oracle(inp, obs):
                     return f"{where}: iter_changes reports versioned {p1!r} that all_versioned_paths does not list"
                 r = rows[p1]
                 k = None if str(r[1]) == "missing" else str(r[1])
-                if (None if c[6] is None else str(c[6])) != k and not (fmt == "git" and k == "missing"):
+                if fmt == "git" and k is None and c[6] is not None and str(c[6]) == "directory":
+                    continue          # git directories are implied by index paths, present on disk or not
+                if (None if c[6] is None else str(c[6])) != k:
                     return f"{where}: iter_changes kind {c[6]} of {p1!r} differs from the tree's {r[1]}"
         # (6) commit then clean / revert restores basis
         if op[0] in ("commit", "revert") and status == "ok" and [c for c in changes if not (c[0] is None and c[1] == "")]:
@@ -554,6 +566,10 @@ def finding_matches(fid, inp, obs, why):
         return fmt == "git" and cut_op == "revert" and cut == i and "KeyError" in why
     if fid == "C09-git-revert-rename-detect":
         return fmt == "git" and cut_op == "revert" and "KeyError" not in why
+    if fid == "C09-bzr-rename-removed-inconsistent":
+        return fmt == "bzr" and cut is None and ops[i][0] == "ren" and e == "InconsistentDelta" and "InconsistentDelta" in why
+    if fid == "C09-git-commit-copy":
+        return fmt == "git" and cut_op == "commit"
     if fid == "C09-git-notadir":
         return fmt == "git" and cut is None and M.g_notadir(s) and "NotADirectoryError" in why
     if fid == "C09-git-commit-dirified":
